@@ -226,7 +226,7 @@ def finish (c : Cfg) (s : State) (t : Tid) (th : Th) : State :=
   match th.dir with
   | .pop =>
     let s1 := { s with hitSum := s.hitSum + th.hit, hitNum := s.hitNum + th.want,
-                       counter := if c.count = .post then s.counter + th.want else s.counter }
+                       counter := if c.count = CountMode.post then s.counter + th.want else s.counter }
     match th.cont with
     | .refill =>
       match th.pages with
@@ -234,7 +234,7 @@ def finish (c : Cfg) (s : State) (t : Tid) (th : Th) : State :=
       | [] => s1.setTh t { th with pc := .bLoop }
     | _ => s1.setTh t { th with pc := .retWait }
   | .push =>
-    let s1 := { s with counter := if c.count = .post then s.counter - th.want else s.counter }
+    let s1 := { s with counter := if c.count = CountMode.post then s.counter - th.want else s.counter }
     match th.cont with
     | .flush => s1.setTh t { th with pc := .bdNext }
     | _ => s1.setTh t { th with pc := .retWait }
@@ -254,14 +254,14 @@ def enterSt (c : Cfg) (s : State) (t : Tid) (th : Th) : State :=
 
 /-- enter `CachedPageAllocator::allocate(pages, n)` (through the counting layer, if any) -/
 def startAlloc (c : Cfg) (s : State) (t : Tid) (th : Th) (n : Nat) (cont : Cont) : State :=
-  let s1 := { s with counter := if c.count = .pre then s.counter + n else s.counter }
+  let s1 := { s with counter := if c.count = CountMode.pre then s.counter + n else s.counter }
   s1.setTh t { th with pc := .tkt, dir := .pop, cont := cont, want := n, num := min n c.cap, hit := min n c.cap,
                        rest := 0, i := 0, pages := [] }
 
 /-- enter `CachedPageAllocator::deallocate(pages, n)` with the pages already in `th.pages` -/
 def startDealloc (c : Cfg) (s : State) (t : Tid) (th : Th) (cont : Cont) : State :=
   let n := th.pages.length
-  let s1 := { s with counter := if c.count = .pre then s.counter - n else s.counter }
+  let s1 := { s with counter := if c.count = CountMode.pre then s.counter - n else s.counter }
   s1.setTh t { th with pc := .tkt, dir := .push, cont := cont, want := n, num := min n c.cap, rest := 0, i := 0 }
 
 /-- remove the tokens `ps` (one by one) from `held` -/
